@@ -535,6 +535,10 @@ def slice_frontend(pid, cases, workdir, rep, stats):
         if v is not None and v[0] == "AGREE":
             stats["agree"] += 1
             stats["frontend_agree"] += 1
+        elif v is not None and v[1].strip().startswith("FUnsupported"):
+            # the model declares the text outside itself (a guard that is a lone string literal -
+            # here produced by a mutation that moved lexemes): no comparison, counted
+            stats["frontend_outside_model"] += 1
         else:
             rep.violation({"property": pid, "kind": "front", "sub": "frontend", "text": c["text"],
                            "lines": c["lines"], "final_newline": c["fnl"], "mutation": c.get("mutation"),
